@@ -245,14 +245,14 @@ theorem relM_iterate (var : Bytes) (cols : Option Nat) {body body' : M Status} (
     subst hcur
     cases st <;> cases st' <;> first | exact hst.elim | exact ih _ _ | exact relM_pure _ _ True.intro
 
-theorem relM_loopRun (P : Prims) (path : Bytes) {loc loc' : Loc} (hl : LocRel loc loc')
+theorem relM_loopRun {budget : Int} (P : Prims) (path : Bytes) {loc loc' : Loc} (hl : LocRel loc loc')
     (tr : Bool) (var : Bytes) (e : Expr) (mods : LoopMods)
     {bodyM bodyM' : M Status} (hb : LineMRel StatusRel bodyM bodyM') (tooMany : Bool) (elseM elseM' : Option (M Status))
     (he : match elseM, elseM' with
       | none, none => True
       | some m, some m' => LineMRel StatusRel m m'
       | _, _ => False) :
-    LineMRel StatusRel (loopRun P path loc tr var e mods bodyM tooMany elseM) (loopRun P path loc' tr var e mods bodyM' tooMany elseM') := by
+    LineMRel StatusRel (loopRun budget P path loc tr var e mods bodyM tooMany elseM) (loopRun budget P path loc' tr var e mods bodyM' tooMany elseM') := by
   unfold loopRun
   refine relM_wrapAt path hl ?_
   refine relM_bind (relM_refl (R := fun a b : Env => a = b) (fun _ => rfl) _) (fun env env' h1 => ?_)
